@@ -16,7 +16,51 @@ import (
 	"github.com/cinar/indicator/v2/verifmc/mc"
 )
 
-func day(i int) time.Time { return time.Date(2021, 3, 1+i, 0, 0, 0, 0, time.UTC) }
+// dayBase is day(0); the "far-dates" initial states move it (see replayRepo).
+var dayBase = time.Date(2021, 3, 1, 0, 0, 0, 0, time.UTC)
+
+func day(i int) time.Time { return dayBase.AddDate(0, 0, i) }
+
+// renamed presents a repository under other asset names (the model keeps the short logical names).
+type renamed struct {
+	inner    asset.Repository
+	to, from map[string]string
+}
+
+func newRenamed(inner asset.Repository, to map[string]string) *renamed {
+	r := &renamed{inner: inner, to: to, from: map[string]string{}}
+	for k, v := range to {
+		r.from[v] = k
+	}
+	return r
+}
+
+func (r *renamed) real(n string) string {
+	if v, ok := r.to[n]; ok {
+		return v
+	}
+	return n
+}
+
+func (r *renamed) Assets() ([]string, error) {
+	as, err := r.inner.Assets()
+	out := make([]string, len(as))
+	for i, a := range as {
+		out[i] = a
+		if v, ok := r.from[a]; ok {
+			out[i] = v
+		}
+	}
+	return out, err
+}
+func (r *renamed) Get(n string) (<-chan *asset.Snapshot, error) { return r.inner.Get(r.real(n)) }
+func (r *renamed) GetSince(n string, d time.Time) (<-chan *asset.Snapshot, error) {
+	return r.inner.GetSince(r.real(n), d)
+}
+func (r *renamed) LastDate(n string) (time.Time, error) { return r.inner.LastDate(r.real(n)) }
+func (r *renamed) Append(n string, c <-chan *asset.Snapshot) error {
+	return r.inner.Append(r.real(n), c)
+}
 
 // snap builds a snapshot with awkward but finite float values.
 func snap(d int, variant int) *asset.Snapshot {
@@ -109,11 +153,11 @@ var (
 
 func repoKinds() []repoKind {
 	return []repoKind{
-		{name: "memory", inits: []string{"empty", "reads-between-appends"}, open: func(string) (asset.Repository, func() string, func()) {
+		{name: "memory", inits: []string{"empty", "reads-between-appends", "far-dates-2262", "far-dates-9999", "dotted-names"}, open: func(string) (asset.Repository, func() string, func()) {
 			r := asset.NewInMemoryRepository()
 			return r, func() string { return core.Dump(r) }, func() {}
 		}},
-		{name: "filesystem", inits: []string{"empty", "empty-file-A", "header-only-A", "base-path-with-pattern-characters", "reads-between-appends", "two-objects", "process-zone-utc+9", "process-zone-utc-5"},
+		{name: "filesystem", inits: []string{"empty", "empty-file-A", "header-only-A", "base-path-with-pattern-characters", "reads-between-appends", "two-objects", "process-zone-utc+9", "process-zone-utc-5", "far-dates-2262", "far-dates-9999", "dotted-names"},
 			second: func(r asset.Repository) asset.Repository { return asset.NewFileSystemRepository(fsBase[r]) },
 			open: func(init string) (asset.Repository, func() string, func()) {
 				dir := mustTempDir("c10")
@@ -140,7 +184,7 @@ func repoKinds() []repoKind {
 				fsBase[r] = dir
 				return r, func() string { return dirState(dir) }, func() { os.RemoveAll(top); delete(fsBase, r) }
 			}},
-		{name: "sql", inits: []string{"empty", "reads-between-appends", "two-objects"},
+		{name: "sql", inits: []string{"empty", "reads-between-appends", "two-objects", "far-dates-2262", "far-dates-9999", "dotted-names"},
 			second: func(r asset.Repository) asset.Repository {
 				r2, err := asset.NewSQLRepository("verifsql", sqlDsn[r], fakeDialect{})
 				if err != nil {
@@ -315,8 +359,22 @@ func replayRepo(k repoKind, init string, hist []repoOp) (state string, viol stri
 		time.Local = time.FixedZone("process zone", off*3600)
 		defer func() { time.Local = saved }()
 	}
+	// whole-day dates far from today: around 2262-04-11 (where a count of nanoseconds since 1970 leaves int64) and at the
+	// end of the four-digit years
+	if strings.HasPrefix(init, "far-dates-") {
+		saved := dayBase
+		dayBase = time.Date(2262, 4, 10, 0, 0, 0, 0, time.UTC)
+		if init == "far-dates-9999" {
+			dayBase = time.Date(9999, 12, 24, 0, 0, 0, 0, time.UTC)
+		}
+		defer func() { dayBase = saved }()
+	}
 	repo, stateFn, cleanup := k.open(init)
 	defer cleanup()
+	if init == "dotted-names" {
+		// ticker symbols with a dot (share classes), and a name that itself ends in the data files' suffix
+		repo = newRenamed(repo, map[string]string{"A": "BRK.B", "gs": "x.csv", "Z": "BF.A"})
+	}
 	m := &repoModel{data: map[string][]*asset.Snapshot{}, appended: map[string]bool{}}
 	if init != "empty" {
 		m.appended["A"] = true // the file exists (without snapshots), as after an Append of an empty batch
@@ -538,8 +596,8 @@ func memConcurrentUnit(c *core.Ctx) {
 func init() {
 	core.Register(&core.Check{
 		ID:   "C10",
-		Rule: "explicit-state BFS over Append histories (2 asset names x 5 batches incl. empty and equal-date boundary, plus out-of-date-order back-fills for the in-memory and file-system repositories, depth 4 / 5 thorough) on the real in-memory, file-system (initial states: empty dir, existing empty file, header-only file) and SQL (over an in-harness conforming database/sql driver) repositories, deduplicated on the concrete persisted state; in every state every read (Get, GetSince at every date and between dates, LastDate, Assets for two known and one unknown name) is compared with the map model and must leave the state unchanged; every history runs as one controlled execution, so 'Append has returned => visible' and hangs are decided without clocks; plus 2-3 overlapping Appends on the in-memory repository explored over all schedules by DPOR (every returned Append must be visible); non-trivial = non-initial states",
-		Assume: []string{"SQL repository is exercised over the harness's fake driver only (rows in insertion order, positional parameters)", "snapshot values: finite floats incl. 0.1, 1/3, 1e21; whole-day UTC dates in 2021",
+		Rule: "explicit-state BFS over Append histories (2 asset names x 5 batches incl. empty and equal-date boundary, plus out-of-date-order back-fills for the in-memory and file-system repositories, depth 4 / 5 thorough) on the real in-memory, file-system (initial states: empty dir, existing empty file, header-only file; also process zones UTC+9 / UTC-5, dates around 2262-04-11 and in December 9999, asset names with dots) and SQL (over an in-harness conforming database/sql driver) repositories, deduplicated on the concrete persisted state; in every state every read (Get, GetSince at every date and between dates, LastDate, Assets for two known and one unknown name) is compared with the map model and must leave the state unchanged; every history runs as one controlled execution, so 'Append has returned => visible' and hangs are decided without clocks; plus 2-3 overlapping Appends on the in-memory repository explored over all schedules by DPOR (every returned Append must be visible); non-trivial = non-initial states",
+		Assume: []string{"SQL repository is exercised over the harness's fake driver only (rows in insertion order, positional parameters)", "snapshot values: finite floats incl. 0.1, 1/3, 1e21; whole-day UTC dates in 2021 (and, in the far-dates units, in 2262 and 9999)",
 			"an asset that was appended with empty batches only may or may not be listed / readable (not constrained by the property)"},
 		Units: func(tier string) []core.Unit {
 			depth := 4
